@@ -179,6 +179,15 @@ func genJsonDec(tier string, seed uint64) {
 		emitJ([]byte("\"" + strings.Repeat("a", n)))
 	}
 	emitJ([]byte(strings.Repeat("1", 70000)))
+	// long mantissas (past every integer range) with and without fraction / exponent, both signs
+	for _, n := range []int{18, 19, 20, 21, 25, 40, 400} {
+		m := strings.Repeat("1234567890", n/10+1)[:n]
+		for _, suf := range []string{"", ".5", "e3", "E-3", "e+90", ".25e-7", "e-400", "e400", ".0"} {
+			emitJ([]byte(m + suf))
+			emitJ([]byte("-" + m + suf))
+			emitJ([]byte("[" + m + suf + "]"))
+		}
+	}
 	for b := 0; b < 256; b++ {
 		emitJ([]byte{'"', byte(b), '"'})
 		emitJ([]byte{'"', '\\', byte(b), '"'})
